@@ -132,6 +132,8 @@ def norm_out(op, entry, obs, httpobs=None):
     """normalised outcome tuple, same vocabulary for library and HTTP entry"""
     if obs is None:
         return ('missing',)
+    if entry == 'lib' and ' consumed=' in obs:
+        obs = obs[:obs.index(' consumed=')]
     if entry == 'lib':
         ws = obs.split()
         if not ws:
